@@ -23,6 +23,31 @@ fn arg(args: &[String], name: &str) -> Option<String> {
     args.iter().position(|a| a == name).and_then(|i| args.get(i + 1).cloned())
 }
 
+fn run_check(name: &str, tier: &str, config: &str) -> Option<Report> {
+    let (tier, config) = (&tier.to_string(), &config.to_string());
+    Some(match name {
+        "c01" => c01::run(tier, config),
+        "c02" => chist::run("C02", tier, config),
+        "c11" => chist::run("C11", tier, config),
+        "c04" => hsweep::run_c04(tier, config),
+        "c05" => c05::run(tier, config),
+        "c06" => c06::run(tier, config),
+        "c07" => hsweep::run_c07(tier, config),
+        "c08" => c08::run(tier, config),
+        "c09" => tf::run("C09", tier, config),
+        "c10" => tf::run("C10", tier, config),
+        "c12" => simd::run("C12", tier, config),
+        "c13" => simd::run("C13", tier, config),
+        "c14" => guts::run_c14(tier, config),
+        "c15" => guts::run_c15(tier, config),
+        "c16" => c16::run(tier, config),
+        "c17" => c17::run(tier, config),
+        "c18" => c18::run(tier, config),
+        "c19" => c19::run(tier, config),
+        _ => return None,
+    })
+}
+
 fn main() {
     let args: Vec<String> = std::env::args().collect();
     if args.len() < 2 {
@@ -53,11 +78,34 @@ fn main() {
     }
     if args[1] == "replay" {
         let v: serde_json::Value = serde_json::from_str(&std::fs::read_to_string(&args[2]).unwrap()).unwrap();
-        let r = if v.get("replay").is_some() { v["replay"].clone() } else { v };
-        let ok = match r["check"].as_str().unwrap_or("") {
-            "C01" => c01::replay(&r),
-            "C02" | "C11" => chist::replay(&r),
-            o => { eprintln!("no replayer for {}", o); std::process::exit(2) }
+        let r = if v.get("replay").is_some() { v["replay"].clone() } else { v.clone() };
+        let check = r["check"].as_str().unwrap_or("").to_string();
+        let specific: Option<bool> = match check.as_str() {
+            "C01" => Some(c01::replay(&r)),
+            "C02" | "C11" => Some(chist::replay(&r)),
+            "C04" | "C05" | "C06" | "C07" => if r.get("msg").is_some() { hsweep::replay(&r) } else { None },
+            "C08" => c08::replay(&r),
+            "C09" | "C10" => tf::replay(&r),
+            "C17" => c17::replay(&r),
+            "C18" => c18::replay(&r),
+            _ => None,
+        };
+        let ok = match specific {
+            Some(b) => b,
+            None => {
+                // fallback: re-run the check's quick tier and look for the recorded signature
+                let sig = v["sig"].as_str().unwrap_or("").to_string();
+                let sub = v["property"].as_str().unwrap_or(&check).to_lowercase();
+                let config = arg(&args, "--config").unwrap_or("rel".into());
+                println!("replay by signature: re-running {} and looking for {}", sub, sig);
+                match run_check(&sub, "quick", &config) {
+                    None => { eprintln!("no replayer for {}", sub); std::process::exit(2) }
+                    Some(rep) => match rep.violations.get(&sig) {
+                        Some(x) => { println!("  reproduced x{}: {}", x.count, x.detail); false }
+                        None => { println!("  signature not reproduced ({} other violations)", rep.violations.len()); true }
+                    },
+                }
+            }
         };
         println!("{}", if ok { "REPLAY: no violation" } else { "REPLAY: violation reproduced" });
         std::process::exit(if ok { 0 } else { 1 });
@@ -65,26 +113,9 @@ fn main() {
     let tier = arg(&args, "--tier").unwrap_or("quick".into());
     let config = arg(&args, "--config").unwrap_or("rel".into());
     let out = arg(&args, "--out");
-    let rep: Report = match args[1].as_str() {
-        "c01" => c01::run(&tier, &config),
-        "c04" => hsweep::run_c04(&tier, &config),
-        "c05" => c05::run(&tier, &config),
-        "c06" => c06::run(&tier, &config),
-        "c07" => hsweep::run_c07(&tier, &config),
-        "c08" => c08::run(&tier, &config),
-        "c17" => c17::run(&tier, &config),
-        "c12" => simd::run("C12", &tier, &config),
-        "c13" => simd::run("C13", &tier, &config),
-        "c19" => c19::run(&tier, &config),
-        "c16" => c16::run(&tier, &config),
-        "c18" => c18::run(&tier, &config),
-        "c09" => tf::run("C09", &tier, &config),
-        "c10" => tf::run("C10", &tier, &config),
-        "c14" => guts::run_c14(&tier, &config),
-        "c15" => guts::run_c15(&tier, &config),
-        "c02" => chist::run("C02", &tier, &config),
-        "c11" => chist::run("C11", &tier, &config),
-        o => { eprintln!("unknown check {}", o); std::process::exit(2) }
+    let rep: Report = match run_check(args[1].as_str(), &tier, &config) {
+        Some(r) => r,
+        None => { eprintln!("unknown check {}", args[1]); std::process::exit(2) }
     };
     let j = rep.to_json();
     eprintln!("{} {} {}: evaluations={} nontrivial={} violations={} wall={:.1}s", rep.prop, tier, config, rep.evaluations, rep.nontrivial, rep.violations.len(), rep.start.elapsed().as_secs_f64());
